@@ -121,6 +121,8 @@ fn cram_container_ends(b: &[u8]) -> Option<Vec<usize>> {
     Some(ends)
 }
 
+pub(crate) fn itf8_pub(b: &[u8], p: &mut usize) -> Option<()> { itf8(b, p) }
+pub(crate) fn itf8_val_pub(b: &[u8], p: &mut usize) -> Option<i64> { itf8_val(b, p) }
 /// raw CRAM stream: (offset, header length, body length, landmarks) of every container after the file definition (independent walk)
 pub(crate) fn cram_containers(b: &[u8]) -> Option<Vec<(usize, usize, usize, Vec<usize>)>> {
     let mut out = Vec::new(); let mut p = 26;
